@@ -438,7 +438,7 @@ func c04closeVerdict(c *Ctx, r *Report, rule string) {
 			}
 			if !found {
 				for _, g := range exitGuardsCached(fn) {
-					if !g.Head.Dominates(ret.Block()) || g.Head == ret.Block() || g.Exit.Dominates(ret.Block()) || !regionOnlyErrorExits(g.Exit) {
+					if !g.Head.Dominates(ret.Block()) || g.Head == ret.Block() || g.Exit.Dominates(ret.Block()) || !regionOnlyErrorExits(g.Exit) || insideChain(g, ret.Block()) {
 						continue
 					}
 					for _, cj := range g.Conj {
